@@ -34,15 +34,18 @@ BUDGET = {
 }
 
 
+_KINDS = {
+    'c': Counter,
+    'r': Rate,
+    'a': AggregateTimer,
+    'g': Gauge,
+    't': AverageTimer,
+}
+
+
 class TV(VarzBase):
   _VARZ_BASE_NAME = 'vf.c18'
-  _VARZ = {
-      'c': Counter,
-      'r': Rate,
-      'a': AggregateTimer,
-      'g': Gauge,
-      't': AverageTimer,
-  }
+  _VARZ = dict(_KINDS)
 
 
 METRIC = dict((k, 'vf.c18.' + k) for k in 'cragt')
@@ -58,6 +61,10 @@ def strategy(tier):
       's': st.integers(0, 2), 'm': st.integers(0, 3), 'e': st.integers(0, 3), 'c': st.integers(0, 2),
       'v': st.one_of(st.integers(-5, 50), st.floats(-1e9, 1e9, allow_nan=False, allow_infinity=False)),
       'static': st.booleans(),
+      # how the Source is built (all fields to the constructor, or some assigned afterwards, before first use), and
+      # whether another Varz block with the same names is defined first (a second VarzBase subclass declaring them)
+      'build': st.sampled_from(['ctor', 'ctor', 'assign', 'assign_all']),
+      'redefine': st.sampled_from([False] * 11 + [True]),
   })
   call = st.fixed_dictionaries({'m': st.integers(1, 3), 'e': st.integers(1, 3), 'ok': st.booleans(), 'd': st.integers(0, 1)})
   return st.fixed_dictionaries({
@@ -194,6 +201,8 @@ def execute(plan):
     model_gauge = {}    # (service, client) -> last
     tuples_used = {}    # metric -> set of field tuples
     per_tuple_updates = {}
+    flags = set()
+    cls = TV
     for u in plan['updates']:
       k = u['k']
       svc, cl = SERVICES[u['s']], CLIENTS[u['c']]
@@ -201,12 +210,26 @@ def execute(plan):
         meth, ep = None, None      # single source per aggregation key
       else:
         meth, ep = METHODS[u['m']], ENDPOINTS[u['e']]
-      src = Source(method=fresh(meth), service=fresh(svc), endpoint=fresh(ep), client_id=fresh(cl))
+      if u.get('build', 'ctor') == 'ctor':
+        src = Source(method=fresh(meth), service=fresh(svc), endpoint=fresh(ep), client_id=fresh(cl))
+      elif u['build'] == 'assign':
+        src = Source(service=fresh(svc), client_id=fresh(cl))
+        src.method = fresh(meth)
+        src.endpoint = fresh(ep)
+        flags.add('source_fields_assigned')
+      else:
+        src = Source()
+        src.method, src.service, src.endpoint, src.client_id = fresh(meth), fresh(svc), fresh(ep), fresh(cl)
+        flags.add('source_fields_assigned')
+      if u.get('redefine'):
+        cls = type(TV)('TV_again', (VarzBase,), {'_VARZ_BASE_NAME': TV._VARZ_BASE_NAME, '_VARZ': dict(_KINDS)})
+        if per_tuple_updates:
+          flags.add('names_declared_again_after_updates')
       v = u['v']
       if u['static']:
-        getattr(TV, k)(src, v)
+        getattr(cls, k)(src, v)
       else:
-        getattr(TV(src), k)(v)
+        getattr(cls(src), k)(v)
       ft = (meth, svc, ep, cl)
       tuples_used.setdefault(k, set()).add(ft)
       per_tuple_updates[(k, ft)] = per_tuple_updates.get((k, ft), 0) + 1
@@ -333,7 +356,7 @@ def execute(plan):
   nt = None
   if dup:
     nt = ['>=2 updates from equal-but-distinct sources']
-  classes = sorted(set('kind=' + u['k'] for u in plan['updates']))
+  classes = sorted(set('kind=' + u['k'] for u in plan['updates'])) + sorted(flags)
   if len(stream) > 1000:
     classes.append('stream>1000')
   if calls:
